@@ -583,6 +583,41 @@ def stage_kshape(ctx):
 
 
 # ------------------------------------------------------------------------------------------------
+# stage: different algorithms in the two directions (RFC 4253 7.1 negotiates each direction on its own)
+
+def stage_asym(ctx):
+    from .. import minissh_selftest as T
+    E, P = b'hmac-sha2-256-etm@openssh.com', b'hmac-sha2-256'
+    setups = [{'mac_algs_cs': [E], 'mac_algs_sc': [P]}, {'mac_algs_cs': [P], 'mac_algs_sc': [E]},
+              {'enc_algs_cs': [b'aes128-gcm@openssh.com'], 'enc_algs_sc': [b'aes128-ctr']},
+              {'enc_algs_cs': [b'aes128-ctr'], 'enc_algs_sc': [b'chacha20-poly1305@openssh.com']},
+              {'enc_algs_cs': [b'aes256-cbc'], 'enc_algs_sc': [b'3des-cbc'], 'mac_algs_cs': [b'hmac-sha1'], 'mac_algs_sc': [E]}]
+    okc = fails = 0
+    for role in ('client', 'server'):
+        for asym in setups:
+            if fails >= 3:
+                break
+            f = T.mini_as_client if role == 'client' else T.mini_as_server
+            desc = {k: [a.decode() for a in v] for k, v in asym.items()}
+            try:
+                mini = sshutil.run(f(b'curve25519-sha256', b'aes128-ctr', P, sizes=[0, 1, 7, 40, 300, 5000], asym=asym),
+                                   timeout=120)
+                okc += 1
+                n = mini.negotiated
+                ctx.note_case(('asym', role, n['enc_cs'], n['enc_sc'], n['mac_cs'], n['mac_sc']), nontrivial=True)
+                ctx.count('asym.' + role)
+            except Exception as e:
+                fails += 1
+                ctx.failing_input(
+                    f'independent RFC 4253 peer (MiniSSH as {role}) cannot talk to asyncssh when the two directions use '
+                    f'different algorithms {desc}: {e!r}',
+                    {'kind': 'asym', 'role': role, 'asym': desc, 'error': repr(e)})
+    ctx.cov['oracle']['asym_sessions_ok'] = okc
+    if okc < 6 and fails < 3:
+        ctx.broke('vacuity:asym', f'only {okc} sessions with per-direction algorithms ran')
+
+
+# ------------------------------------------------------------------------------------------------
 # stage: group exchange with an independent peer and unusual (min, n, max) requests
 
 def stage_gex(ctx):
@@ -660,7 +695,7 @@ def run(ctx):
                        'generated streams of well-formed, misaligned, short-padded, empty-payload and short-length packets '
                        'under generated chunkings; (c) key derivation with a toy hash injected into Kex.compute_key; (d) '
                        'echo sessions over 1-byte / random / coalescing wires with re-keying; (e) OpenSSH client against an '
-                       'asyncssh server; (f) handshakes with an independent server that forces the shared secret K through its mpint shapes; (g) compressed sessions with the independent peer across re-keys; (h) group exchange with the independent peer and unusual (min, n, max) requests. non-trivial = encrypted packet / more than one chunk / more than one digest block')
+                       'asyncssh server; (f) handshakes with an independent server that forces the shared secret K through its mpint shapes; (g) compressed sessions with the independent peer across re-keys; (h) group exchange with the independent peer and unusual (min, n, max) requests; (i) sessions whose two directions negotiate different ciphers / MAC modes. non-trivial = encrypted packet / more than one chunk / more than one digest block')
     ctx.cov['trusted_base'] += [
         'MiniSSH (harness/minissh.py, primitives from PyCA cryptography / hashlib only) as the independent RFC 4253 peer; '
         'its own self test incl. a cross check against the OpenSSH client is run by `python -m harness.minissh_selftest`',
@@ -686,6 +721,7 @@ def run(ctx):
     stage_kshape(ctx)
     stage_compress(ctx)
     stage_gex(ctx)
+    stage_asym(ctx)
     stage_e2e(ctx)
     stage_openssh(ctx)
 
@@ -700,6 +736,16 @@ def replay(rp):
         return 1 if a != b else 0
     if str(rp.get('kind', '')).startswith('enc_'):
         return c02_enc.replay_enc(rp)
+    if rp.get('kind') == 'asym':
+        from .. import minissh_selftest as T
+        f = T.mini_as_client if rp['role'] == 'client' else T.mini_as_server
+        try:
+            sshutil.run(f(b'curve25519-sha256', b'aes128-ctr', b'hmac-sha2-256', sizes=[0, 1, 7, 40, 300, 5000],
+                          asym={k: [a.encode() for a in v] for k, v in rp['asym'].items()}), timeout=120)
+        except Exception as e:
+            print('still fails:', repr(e))
+            return 1
+        return 0
     if rp.get('kind') == 'gex':
         from .. import minissh_selftest as T
         try:
